@@ -137,7 +137,8 @@ class Model(object):
                 ops.append(('append', r, x))
                 if full:
                     ops.append(('appendChild', r, x))
-                for i in sorted(set([0, n // 2, n])):
+                # positions as list.insert understands them: also past the end (clamped) and counted from the end
+                for i in sorted(set([0, n // 2, n] + ([n + 1, n + 3, -1, -n - 1] if full else []))):
                     ops.append(('insert', r, i, x))
                 for i in sorted(set([0, n - 1, -1, -n])) if n else []:
                     ops.append(('setitem', r, i, x))
